@@ -101,6 +101,11 @@ TWINS = [
     (["--set=@w=(concat :p .s)", "--set=p=\"<\"", "--select=(concat @w (set \"p\" \">\" @w)) =x"], ["--select=(concat (concat \"<\" .s) (concat \">\" .s)) =x"]),
     (["--set=@m=(+ :x .n)", "--select=(set \"x\" 10 @m) =x", "--select=(set \"x\" 10 (map .l (+ . @m))) =y"],
      ["--select=(+ 10 .n) =x", "--select=(map .l (+ . (+ 10 .n))) =y"]),        # a macro is expanded where it is used: `.` is the element there
+    # an inner binding hides a --set binding of the same name; a macro called by a macro is looked up where the outer one is used
+    (["--set=pv=1", "--select=(set \"pv\" .n (+ :pv 1)) =x", "--select=(map .l (set \"pv\" . (+ :pv ^.n))) =y", "--select=:pv =z"],
+     ["--select=(+ .n 1) =x", "--select=(map .l (+ . ^.n)) =y", "--select=1 =z"]),
+    (["--set=@f=(+ @g ^.n)", "--set=@g=100", "--select=(define \"g\" 1 (map .l @f)) =a", "--select=(define \"g\" 2 (map .l @f)) =b", "--select=(map .l @f) =c"],
+     ["--select=(map .l (+ 1 ^.n)) =a", "--select=(map .l (+ 2 ^.n)) =b", "--select=(map .l (+ 100 ^.n)) =c"]),
     # names are text: any characters
     (["--set=é=5", "--select=(+ :é 1) =x", "--select=(set \"変数\" 2 (* :変数 :é)) =y"], ["--select=(+ 5 1) =x", "--select=(* 2 5) =y"]),
     (["--set=@größe=(size .l)", "--select=@größe =x", "--select=(define \"名\" (+ .n 1) (+ @名 @größe)) =y"], ["--select=(size .l) =x", "--select=(+ (+ .n 1) (size .l)) =y"]),
@@ -122,6 +127,10 @@ def twin_records(jvh, rnd, n, first_case):
     for i in range(n):
         a, b = TWINS[i % len(TWINS)]
         rows = [X.typed_input(rnd) for _ in range(rnd.choice([1, 2, 3, 5]))]
+        if i == len(TWINS):
+            # 36 records on which a macro yields nothing, then records on which it has a value (nothing may wear out)
+            a, b = ["--set=@nm=.o.deep", "--select=@nm =x", "--select=.n =n", "--filter=(number? .n)"], ["--select=.o.deep =x", "--select=.n =n", "--filter=(number? .n)"]
+            rows = [X.typed_input(rnd) for _ in range(36)] + [("obj", [(X.cps("n"), ("num", str(k))), (X.cps("o"), ("obj", [(X.cps("deep"), ("str", X.cps("v%d" % k)))]))]) for k in range(4)]
         data = b"".join(G.canonical(r) + b"\n" for r in rows)
         for argv in (a, b):
             cases.append({"id": len(cases), "argv": list(argv), "stdin": hexs(data)})
@@ -136,4 +145,28 @@ def twin_records(jvh, rnd, n, first_case):
         recs.append({"case": first_case + i, "kind": "same",
                      "vals": [[1 if oa["res"] == "ok" else 0] + list(bytes.fromhex(oa["out"])), [1 if ob["res"] == "ok" else 0] + list(bytes.fromhex(ob["out"]))]})
         descs.append(m)
+    return recs, descs, len(cases)
+
+
+# ----------------------------------------------------------------------------- one expression over several records in one run
+def multi_eval_records(jvh, table, items, first_case):
+    """items: (expression text, [input values]).  Each item is ONE run of `--select E =x` over all its inputs (so that whatever an expression
+    node keeps between evaluations is exercised); every output row becomes an `eval` record against the input it belongs to.
+    Returns (records, descriptions, number of runs)."""
+    from vcommon import run_cases
+    cases = [{"id": i, "argv": ["--select=%s =x" % txt], "stdin": hexs(b"".join(G.canonical(v) + b"\n" for v in inputs))} for i, (txt, inputs) in enumerate(items)]
+    obs = run_cases(jvh, cases)
+    recs, descs = [], []
+    for i, (txt, inputs) in enumerate(items):
+        ast = X.strip(EP.parse(txt, table))
+        o = obs[i]
+        lines = [l for l in bytes.fromhex(o["out"]).decode("utf-8", "replace").split("\n") if l.strip()] if o["res"] == "ok" else []
+        for j, inp in enumerate(inputs):
+            if o["res"] != "ok" or j >= len(lines):
+                val = {"t": "failed", "why": o["res"] if o["res"] != "ok" else "fewer rows than records"}
+            else:
+                val = observed_value({"res": "ok", "out": hexs(lines[j].encode("utf-8"))})
+            recs.append({"case": first_case + len(recs), "kind": "eval", "ast": ast, "ctx": ctx_of(inp), "res": val})
+            descs.append({"kind": "multi-record", "expression": txt, "record": j, "inputs": [G.canonical(v).decode("utf-8")[:200] for v in inputs][:6],
+                          "stdout": bytes.fromhex(o["out"]).decode("utf-8", "replace")[:400]})
     return recs, descs, len(cases)
